@@ -746,8 +746,8 @@ public:
     if (nslots < 1) nslots = 1;
     int maxops = g.tier ? 12 : 9;
     bool plain = !c18 && !c17 && !c02 && !c15;
-    // nested retirement (a quarter of the C02 / C17 / plain programs): every third node owns a child
-    bool nested = (c02 || c17 || plain) && g.rng.chance(25);
+    // nested retirement (two fifths of the C02 / C17 / plain programs): every third node owns a child
+    bool nested = (c02 || c17 || plain) && g.rng.chance(40);
     bool nested_unlink = nested && g.rng.chance(50);
     p.params = {c18 ? 1 : 0, c17 ? 1 : 0, c02 ? 1 : 0, nested ? 1 : 0, nested_unlink ? 1 : 0}; // C01 / C03 / C16 programs: exits and adoption matter there too
     if (c17 || (c02 && g.rng.chance(60)) || (plain && g.rng.chance(35))) {
